@@ -13,6 +13,51 @@ from kv.pool import fan_out
 
 PID = "C04"
 
+ADAPT = {"skip1": "{S}.skip(1)", "skip3": "{S}.skip(3)", "step2": "{S}.step(2)", "step3": "{S}.step(3)", "enumerate": "{S}.enumerate()", "chain_recv": "{S}.chain([9])", "chain_arg": "[9].chain({S})",
+         "zip_recv": "{S}.zip([7, 8, 9, 10])", "zip_arg": "[7, 8, 9, 10].zip({S})", "windows2": "{S}.windows(2)", "chunks2": "{S}.chunks(2)", "flatten": "{S}.each(|v| (v, v)).flatten()",
+         "intersperse": "{S}.intersperse(0)", "intersperse_fn": "{S}.intersperse(|| 0)", "cycle_take": "{S}.cycle().take(9)", "reversed": "{S}.reversed()", "peekable": "{S}.peekable()", "keep": "{S}.keep(|v| true)",
+         "each": "{S}.each(|v| v)", "take9": "{S}.take(9)", "take_while": "{S}.take(|v| true)", "skip_then_step": "{S}.skip(1).step(2)", "iter": "{S}.iter()", "skip_back": "{S}.skip(2).reversed()"}
+CONS = {"to_list": "{P}.to_list()", "to_tuple": "{P}.to_tuple()", "count": "{P}.count()", "last": "{P}.last()", "consume": "{P}.consume()", "fold": "{P}.fold(0, |a, v| 0)", "for": None,
+        "to_string": "{P}.to_string()", "any": "{P}.any(|v| false)", "all": "{P}.all(|v| true)", "find": "{P}.find(|v| false)", "position": "{P}.position(|v| false)", "min": "{P}.each(|v| 1).min()",
+        "to_map": "{P}.to_map()", "sum": "{P}.each(|v| 1).sum()", "min_max": "{P}.each(|v| 1).min_max()"}
+SOURCES = {"each_callback": ("cb = |x| if x == {K} then throw 'boom' else x", "[0, 1, 2, 3].each(cb)"),
+           "generator": ("g = ||\n  for x in 0..4\n    if x == {K}\n      throw 'boom'\n    yield x", "g()"),
+           "object_next": ("o = {n: -1, @next: ||\n  self.n += 1\n  if self.n == {K}\n    throw 'boom'\n  if self.n < 4 then self.n else null\n}", None)}
+
+def _adaptor_shard(shard, n, tier, seed):
+    """An error raised while producing element K of a fully drained pipeline must reach the enclosing handler, whatever
+    adaptor sits between the failing stage and the consumer (receiver side and argument side)."""
+    w = Worker()
+    rep = {"violations": [], "evaluations": 0, "cells": 0, "passenger": []}
+    idx = 0
+    for sname, (setup, expr) in sorted(SOURCES.items()):
+        if expr is None:
+            continue
+        for an, a in sorted(ADAPT.items()):
+            for cn, c in sorted(CONS.items()):
+                for k in (0, 1, 2, 3):
+                    idx += 1
+                    if idx % n != shard:
+                        continue
+                    if sname == "generator" and an in ("reversed", "skip_back"):
+                        continue      # generators are not reversible: the error is the adaptor's own
+                    pipe = a.replace("{S}", expr)
+                    use = "for v in %s\n    null\n  'done'" % pipe if c is None else c.replace("{P}", "(%s)" % pipe)
+                    for depth in (0, 1):
+                        if depth == 0:
+                            text = "%s\nr = try\n  %s\ncatch e\n  'caught {e}'\nprint r\n" % (setup.replace("{K}", str(k)), use)
+                        else:
+                            text = "%s\nf = ||\n  %s\nr = try\n  f()\ncatch e\n  'caught {e}'\nprint r\n" % (setup.replace("{K}", str(k)), use.replace("\n", "\n"))
+                        r = w.exec(text, timeout=20, limit_ms=3000)
+                        rep["evaluations"] += 1; rep["cells"] += 1
+                        c01._passengers(rep, r, text)
+                        out = r.get("stdout", "").strip() if r.get("outcome") == "ok" else "<%s: %s>" % (r.get("outcome"), str(r.get("error"))[:60])
+                        if out != "caught boom":
+                            rep["violations"].append({"key": "adaptor-fault:%s:%s:%s:%d:%d" % (sname, an, cn, k, depth), "summary": "an error thrown while producing element %d (%s) did not reach the handler through %s / %s: got %s" % (k, sname, an, cn, out[:80]),
+                                                      "case": {"src": text, "real": out}})
+    w.close()
+    return rep
+
 def run(tier, seed):
     chk = Check(PID, tier, seed)
     if not chk.build():
@@ -23,6 +68,15 @@ def run(tier, seed):
     cov["witnesses_replayed"] = replay_witnesses(chk, w)
     w.close()
     c01.fold(chk, cov, "kgen-err", fan_out(c01._kgen_shard, tier=tier, seed=seed, budget_s=28 if quick else 600, profile="GenErr", strict_passengers=True))
+    st = {"cells": 0}
+    for sh in fan_out(_adaptor_shard, tier=tier, seed=seed):
+        chk.merge_shard(sh)
+        if "harness_error" in sh:
+            continue
+        st["cells"] += sh["cells"]
+    cov["streams"]["adaptor-fault-grid"] = st
+    cov["evaluations"] += st["cells"]
+    cov["distinct_nontrivial"] += st["cells"]
     cov["passenger_observations"] = cov["passenger_observations"][:30]
     cov["rule"] = ("kgen err profile: try expressions (value used) nested up to depth 3, 0-2 typed catches (String, Err0-2, Number, Map) before the untyped one, "
                    "optional finally, handlers that rethrow, faults planted in the try body directly, 1-3 calls deep, inside each / keep / fold / consume "
